@@ -1085,12 +1085,44 @@ Qed.
 
 Lemma guard_unfold l :
   cguard_sk (Sk l) = forallb cguard_sk l
-                     && match l with
-                        | [] | [_] => true
-                        | [a; b] => Nat.eqb (hR a) (sheight a) && Nat.eqb (hL b) (sheight b)
-                        | _ => false
-                        end.
+                     && (Nat.leb (nonleaves l) 1
+                         || match l with
+                            | [a; b] => Nat.eqb (hR a) (sheight a) && Nat.eqb (hL b) (sheight b)
+                            | _ => false
+                            end).
 Proof. reflexivity. Qed.
+
+(* a parent at most one of whose children has children: nothing is compared below it *)
+Lemma lvs0 off l : lvs 0 off l = map (fun d => dx d + dsh d + off) l.
+Proof. induction l as [|d l IH]; [reflexivity|]. rewrite lvs_cons, IH. reflexivity. Qed.
+
+Lemma nonleaves_0 l : nonleaves (map sk_d l) = 0%nat -> Forall dleaf l.
+Proof.
+  unfold nonleaves. induction l as [|d l IH]; intros H; [constructor|]. cbn [map filter] in H.
+  rewrite sleaf_sk_d in H. unfold dleaf. destruct (dkids d) eqn:E; cbn [negb length] in H; [|discriminate].
+  constructor; [exact E|apply IH, H].
+Qed.
+
+Lemma deep_one m : forall l, (nonleaves (map sk_d l) <= 1)%nat ->
+  Forall (fun d => sepF m (dkids d)) l -> forall j off, ordP (gap m) (lvs (S j) off l).
+Proof.
+  induction l as [|d l IH]; intros Hc HF j off; [exact I|].
+  inversion HF as [|? ? Hd Hl]; subst. rewrite lvs_cons, lv_S.
+  unfold nonleaves in Hc. cbn [map filter] in Hc. rewrite sleaf_sk_d in Hc.
+  destruct (dkids d) as [|k ks] eqn:E; cbn [negb] in Hc.
+  - cbn [lvs flat_map app]. apply IH; assumption.
+  - cbn [length] in Hc. rewrite (lvs_leaves j off l); [|apply nonleaves_0; unfold nonleaves; lia].
+    rewrite app_nil_r. apply Hd.
+Qed.
+
+Lemma sep_one_nonleaf m ss l : 0 <= m -> m <= ss ->
+  chain_x ss l -> mono (map dsh l) -> (nonleaves (map sk_d l) <= 1)%nat ->
+  Forall (fun d => sepF m (dkids d)) l -> sepF m l.
+Proof.
+  intros Hm Hss Hcx Hmo Hc HF [|j] off; [|apply deep_one; assumption].
+  rewrite lvs0. apply ordP_map. eapply ordP_impl; [|apply (chain_pairs ss ltac:(lra) l Hcx Hmo)].
+  intros a b Hab. unfold gap. cbn beta in Hab. lra.
+Qed.
 
 Lemma sk_of_fp ss sts t : sk_of t = Sk (map sk_d (fp ss sts t)).
 Proof. rewrite sk_fp. destruct t; reflexivity. Qed.
@@ -1101,20 +1133,21 @@ Proof.
   intros Hm Hss Hsts. induction t as [g n a ks IH] using tree_ind'. intros HG.
   cbn [sk_of] in HG. rewrite guard_unfold in HG. apply andb_true_iff in HG. destruct HG as [HGk HG].
   rewrite forallb_forall in HGk.
-  destruct ks as [|k0 [|k1 [|k2 ks]]]; cbn [map] in HG.
-  - intros j off. exact I.
-  - (* one child *)
-    inversion IH as [|? ? IH0 _]; subst.
-    assert (S0 : sepF m (fp ss sts k0)) by (apply IH0, HGk; left; reflexivity).
-    cbn [fp map]. intros j off.
-    match goal with |- ordP _ (lvs j off ?F) => assert (E : exists x, F = [D x 0 0 (fp ss sts k0)]) end.
-    { eexists. reflexivity. }
-    destruct E as [x ->]. rewrite lvs_cons. unfold lvs. cbn [flat_map]. rewrite app_nil_r.
-    apply sep_node. exact S0.
+  assert (Skids : Forall (fun k => sepF m (fp ss sts k)) ks).
+  { rewrite Forall_forall in IH. apply Forall_forall. intros k Hk. apply (IH k Hk).
+    apply HGk. apply in_map. exact Hk. }
+  apply orb_true_iff in HG. destruct HG as [HG|HG].
+  { (* at most one child has children *)
+    apply Nat.leb_le in HG.
+    destruct (fp_inv ss sts (T g n a ks)) as [_ [Hcx Hmo]].
+    apply (sep_one_nonleaf m ss); try assumption.
+    - rewrite sk_fp. cbn [sk_of skids]. exact HG.
+    - assert (E : Forall (sepF m) (map dkids (fp ss sts (T g n a ks)))).
+      { rewrite fp_dkids. apply Forall_map. exact Skids. }
+      rewrite Forall_map in E. exact E. }
+  destruct ks as [|k0 [|k1 [|k2 ks]]]; cbn [map] in HG; try discriminate HG.
   - (* two children *)
-    inversion IH as [|? ? IH0 IHr]; subst. inversion IHr as [|? ? IH1 _]; subst.
-    assert (S0 : sepF m (fp ss sts k0)) by (apply IH0, HGk; left; reflexivity).
-    assert (S1 : sepF m (fp ss sts k1)) by (apply IH1, HGk; right; left; reflexivity).
+    inversion Skids as [|? ? S0 Sr]; subst. inversion Sr as [|? ? S1 _]; subst.
     apply andb_true_iff in HG. destruct HG as [HR HL].
     apply Nat.eqb_eq in HR. apply Nat.eqb_eq in HL.
     rewrite (sk_of_fp ss sts k0), hR_chain in HR. rewrite (sk_of_fp ss sts k1) in HL.
@@ -1145,7 +1178,6 @@ Proof.
       destruct (Forall2_In_r _ _ _ _ (lvs_shift off j K0 _ _ EA) Ha) as [a1 [Ha1 Ea]].
       destruct (Forall2_In_r _ _ _ _ (lvs_shift (off + s) j K1 _ _ EB) Hb) as [b1 [Hb1 Eb]].
       specialize (CS j a1 b1 Ha1 Hb1). lra.
-  - discriminate HG.
 Qed.
 
 (* from relative positions to the final coordinates *)
